@@ -291,6 +291,9 @@ class TypedNode(Node):
             if data_id and data_id != source_node._data_id:
                 raise UniqueConstraintError(f"data_id conflict: {source_node}")
 
+            if data_id is None:
+                # The copy references the same data object under the same data_id
+                data_id = source_node._data_id
 
         # Validate `before` first, so a refused call does not leave a
         # registered, but unattached node behind
